@@ -43,3 +43,45 @@ Proof.
   destruct (open_segs c (ps_segs ps) [] e) as [[[r segs] tl] e1].
   destruct r; try (eexists; eexists; reflexivity). congruence.
 Qed.
+
+(* ---- a sealed segment that the metadata lists but whose file is missing, or whose
+   file has no committed header, makes Open fail (never a log with silently missing
+   entries) ---- *)
+Lemma open_segs_bad_sealed c segs acc e :
+  (exists s, In s segs /\ si_sealed s = true /\
+             match lookup (name_of s) (dk_files (e_disk e)) with
+             | None => True
+             | Some f => cur_end f = 0
+             end) ->
+  let '(r, _, _, _) := open_segs c segs acc e in r <> ROk.
+Proof.
+  revert acc. induction segs as [|si r IH]; intros acc (s & Hin & Hs & Hbad); [destruct Hin|].
+  cbn [open_segs].
+  destruct (negb (si_codec si =? c_codec c)); [discriminate|].
+  destruct Hin as [->|Hin].
+  - rewrite Hs. cbn [negb].
+    destruct (lookup (name_of s) (dk_files (e_disk e))) as [f|]; [|discriminate].
+    rewrite Hbad. rewrite N.eqb_refl. discriminate.
+  - destruct (si_sealed si); cbn [negb].
+    + destruct (lookup (name_of si) (dk_files (e_disk e))) as [f|]; [|discriminate].
+      destruct (cur_end f =? 0); [discriminate|].
+      apply IH. exists s. repeat split; assumption.
+    + destruct r as [|x r']; [destruct Hin|]. discriminate.
+Qed.
+
+Lemma bad_sealed_segment_refused c e ps :
+  dk_inited (e_disk e) = true -> dk_meta (e_disk e) = Some ps ->
+  (exists s, In s (ps_segs ps) /\ si_sealed s = true /\
+             match lookup (name_of s) (dk_files (e_disk e)) with
+             | None => True
+             | Some f => cur_end f = 0
+             end) ->
+  exists r e', open_wal c e = (OErr r, e').
+Proof.
+  intros Hi Hm Hex. unfold open_wal.
+  destruct (negb (FirstExternalCodecID <=? c_codec c) && negb (c_codec c =? BinaryCodecID)); [eauto|].
+  rewrite Hi. cbn [negb]. rewrite Hm.
+  pose proof (open_segs_bad_sealed c (ps_segs ps) [] e Hex) as H.
+  destruct (open_segs c (ps_segs ps) [] e) as [[[r segs] tl] e1].
+  destruct r; try (eexists; eexists; reflexivity). congruence.
+Qed.
